@@ -427,6 +427,15 @@ func (s *stream) wait() {
 func (s *stream) Close(closeWithCancel bool) {
 	s.closeWithCancel = closeWithCancel
 
+	if s.observers == nil {
+		// already closed by a rebalance that has not reopened yet: cancel the pending reopen
+		if s.rebalanceTimer != nil {
+			s.rebalanceTimer.Stop()
+		}
+
+		return
+	}
+
 	s.eventHandler.BeforeStreamStop()
 
 	if !s.config.RollbackMitigation.Disabled {
